@@ -7,6 +7,7 @@ from model import strip, dstr, const_value, walk
 
 INF = float('inf')
 _VISITING = set()
+_NE = {}
 
 # library calls whose result is bounded by one of their arguments (index of that argument);
 # snprintf / vsnprintf are deliberately absent: they return the length the text *would* have had
@@ -16,6 +17,7 @@ RETURNS_AT_MOST = {'read': 2, 'fread': 2, 'fwrite': 2, 'recv': 2, 'pread': 2}
 def _facts_bounds(f, facts, key):
     """(lo, hi) implied for the expression with canonical string `key` by the guard facts."""
     lo, hi = -INF, INF
+    ne = []
     for k, (pol, atom) in facts.items():
         a = strip(atom)
         if not (isinstance(a, dict) and a.get('k') == 'bin' and a['op'] in ('<', '==')):
@@ -37,6 +39,11 @@ def _facts_bounds(f, facts, key):
         elif a['op'] == '==' and pol:
             if lk == key and rc_ is not None:
                 lo, hi = max(lo, rc_), min(hi, rc_)
+        elif a['op'] == '==' and not pol:
+            # x != c at the edge of the known range moves the bound (x unsigned, x != 0  =>  x >= 1)
+            if lk == key and rc_ is not None:
+                ne.append(rc_)
+    _NE[key] = ne
     return lo, hi
 
 
@@ -65,8 +72,11 @@ def _b(f, ev, facts, d, depth):
     key = dstr(d)
     lo, hi = _facts_bounds(f, facts, key)
     if k == 'var':
-        if d.get('tk') == 'uint' or (d.get('ty') or '').startswith(('unsigned', 'size_t', 'uint')):
+        if d.get('tk') == 'uint' or (d.get('ty') or '').startswith(('unsigned', 'size_t', 'uint', 'std::size_t')):
             lo = max(lo, 0)
+        for c in sorted(_NE.get(key, ())):
+            if c == lo:
+                lo += 1
         if depth < 6 and d.get('vk') in ('local',) and d['n'] not in _VISITING:
             _VISITING.add(d['n'])
             try:
@@ -148,3 +158,18 @@ def upper_by_fact(f, ev, d, pred):
                 dstr(strip(a['l'])) == key and pred(a['r']):
             return True
     return False
+
+
+def lower_bound_on_all_paths(f, ev, d, c):
+    """Every path from the function entry to event ev takes a branch edge whose facts alone imply
+    d >= c (path-sensitive: infeasible combinations of branch outcomes are not followed)."""
+    key = dstr(strip(d))
+
+    def edge_ok(b, i, s2):
+        facts = {k: (pol, atom) for k, pol, atom in f.edge_facts(b, i)}
+        lo, hi = _facts_bounds(f, facts, key)
+        for x in sorted(_NE.get(key, ())):
+            if x == max(lo, 0):
+                lo = max(lo, 0) + 1
+        return not lo >= c
+    return f.find_path(None, lambda x: x is ev, from_succ=f.entry, edge_ok=edge_ok) is None
